@@ -160,10 +160,13 @@ def kinds_of(ctx: Ctx, which: str):
                 g = ctx.prog.functions.get(cl.fn[1])
                 if g is not None and g.cls is not None and g.cls in c.mro and any(x.fn == ("func", PARSE) for x in ctx.summary(g).calls):
                     pf = g
+    direct = False
+    if pf is None and fcl is not None and any(x.fn == ("func", PARSE) for x in ctx.summary(fcl).calls):
+        pf, direct = fcl, True  # the dispatcher is called by from_chart_lines itself (or through a helper the evaluator inlined)
     if pf is None:
         return c, None, None, None, None
     s = ctx.summary(pf)
-    rt = s.ret_term()
+    rt = s.ret_term() if not direct else None
     order = None
     pcall = None
     for cl in s.calls:
@@ -175,6 +178,8 @@ def kinds_of(ctx: Ctx, which: str):
             if tt is not None and tt[0] == "tuple" and all(x[0] == "class" for x in tt[1]):
                 order = [x[1] for x in tt[1]]
     idx = {}
+    if direct and order is not None:
+        idx = {k: ("direct",) for k in order}
     if rt is not None and rt[0] == "tuple" and pcall is not None:
         for k, el in enumerate(rt[1]):
             for form in (("call", ("meth", "__getitem__"), (("attr", pcall.result, "_dict"), ("class", H("k"))), ()),
@@ -200,11 +205,18 @@ def check_track_sections(ctx: Ctx, r: Rule, which: str, strict: Any = True) -> d
     if pcall is None or order is None:
         fail(r, ctx, pf, pf.node, "the section's lines are not handed to the dispatcher with a literal tuple of kinds")
         return out
-    if strict is True and strip(dict(pcall.kwargs).get(parse_params[1])) != ("param", ps[1]):
+    direct = any(v == ("direct",) for v in idx.values())
+    lines_formal = None
+    for p_ in ps:
+        if ctx.ev.types.param_type(pf, p_) == ("seq", ("ext", "builtins.str")):
+            lines_formal = ("param", p_)
+    if lines_formal is None:
+        lines_formal = ("param", ps[1])
+    if strict is True and strip(dict(pcall.kwargs).get(parse_params[1])) != lines_formal:
         fail(r, ctx, pf, pcall.node, f"the dispatcher must receive the section's own lines unchanged (every line, in order, "
                                      f"duplicates included); it receives {show(dict(pcall.kwargs).get(parse_params[1]))[:120]}")
     spf = ctx.summary(pf)
-    if spf.effects or spf.loops or len(live_exits(spf)) != 1:
+    if not direct and (spf.effects or spf.loops or len(live_exits(spf)) != 1):
         fail(r, ctx, pf, pf.node, "the kind-list helper must be a single return without effects")
     for k in idx:
         if k not in order:
@@ -244,17 +256,21 @@ def check_track_sections(ctx: Ctx, r: Rule, which: str, strict: Any = True) -> d
             et_ok = ft in (("seq", ("inst", et[1])), ("inst", "chartparse.sync.BPMEvents") if et[1].endswith("BPMEvent") else None)
             if not et_ok:
                 fail(r, ctx, f, ex[0].node, f"field {field} is declared {ft} but is filled with {et[1]} events")
-            want_d = ("proj", PC, idx.get(pdq, -1))
+            want_d = ("proj", PC, idx.get(pdq, -1)) if not direct else \
+                ("?or", ("call", ("meth", "__getitem__"), (("attr", pcall.result, "_dict"), ("class", pdq)), ()), ("sub", pcall.result, ("class", pdq)))
             is_strict = strict is True or (strict == "bpm" and et[1].endswith(".BPMEvent"))
             got_d = bk.get(build_params[1])
+            if direct and pdq in idx and match(want_d, got_d) is not None:
+                out["fields"][field] = (et[1], bk.get(build_params[2]), val)
+                continue
             if not is_strict:
                 # order / multiplicity of the data is irrelevant for the calling property: accept any term derived from the
                 # right component of the kind-list helper
-                loose = ("proj", ("call", ("func", pf.qual), (), ANYP), idx.get(pdq, -1))
+                loose = ("proj", ("call", ("func", pf.qual), (), ANYP), idx.get(pdq, -1)) if not direct else want_d
                 if pdq in idx and got_d is not None and any(match(loose, t) is not None for t in subterms(got_d)):
                     out["fields"][field] = (et[1], bk.get(build_params[2]), val)
                     continue
-            if pdq not in idx or strip(got_d) != strip(want_d):
+            if pdq not in idx or direct or strip(got_d) != strip(want_d):
                 fail(r, ctx, f, ex[0].node, f"field {field}: the {et[1].rsplit('.', 1)[-1]} builder must receive exactly the data the "
                                             f"dispatcher collected for {pdq.split('.', 1)[1]} from this section's own lines, in file order "
                                             f"(component {idx.get(pdq)} of the kind-list helper); it receives "
